@@ -479,3 +479,23 @@ def run(ctx):
             ctx.undecided('C15.7-derive-module-name', 'module-name', 'calls of the two generators not found in derive_elixir_struct')
     else:
         ctx.info_note('derive macro crate not part of this build')
+
+    # a newtype wrapper holds ONE value: whatever that value serialises to becomes one element
+    ctx.rule('C15.5-newtype-payload-opaque', 'serialize_newtype_variant places the serialised inner value as a single element and never looks at its kind: '
+             'a serialiser that splices a tuple-shaped payload into the variant\'s own tuple writes {Variant, a, b} for Variant((a, b)), which the deserialiser reads as a tuple variant', floor=1)
+    n_np = 0
+    for fnm in ('serialize_newtype_variant',):     # (serialize_newtype_struct looks at the payload on purpose: the atom markers)
+        for NBv in bodies_of_fn(P, SER + fnm):
+            inner = [(bb, t) for bb, t in NBv.calls() if any(n.endswith('ser::Serialize::serialize') or n.endswith('::serialize') and 'Serialize' in n for n in callee_names(t))]
+            if not inner:
+                continue
+            n_np += 1
+            der = NBv.derived_locals([t['dst']['l'] for bb, t in inner if not t['dst'].get('p')])
+            peeks = [(bb, st) for bb, j, st in NBv.stmts() if st['k'] == '=' and st['rv']['k'] == 'discr' and st['rv']['pl']['l'] in der
+                     and str(st['rv'].get('ty', '')).replace('&', '').split('<')[0] == OWNED]
+            if peeks:
+                ctx.bad('C15.5-newtype-payload-opaque', fnm, '%s branches on the kind of the serialised inner value: a payload that is itself a tuple (a Rust tuple, a nested data-carrying variant) is not kept as one element' % fnm,
+                        ctx.where(NBv, peeks[0][0]), key='SHAPE:%s%s:payload-inspected' % (SER, fnm))
+            else:
+                ctx.ok('C15.5-newtype-payload-opaque', fnm, 'the inner value is moved into the result without being looked at', ctx.where(NBv))
+    ctx.anchor(n_np >= 1, SER + 'serialize_newtype_variant: the call that serialises the inner value')
